@@ -29,6 +29,7 @@ EXPLANATION = (
     "is control-dependent on an output switch (SIM_OUTPUT.*, show/markdown flags, log levels); R3.6 identifiers never order "
     "behaviour: no sorted()/min()/max()/sort() over a mapping keyed by uuid4 (recognised from its `[x.uuid] = ...` stores) or "
     "over its keys()/items(), and no sort key that reads .uuid; R3.7 = C04's R4.2 (an output switch guards logging statements "
+    "R3.8 the numeric settings this property depends on are never tested by truthiness (`x or default`, `if x:`), because 0 is a legal value for them. "
     "only) applied here; R3.1 also inventories sources handed over uncalled (default_factory=np.random.default_rng). NOT decided: equality "
     "of trajectories, float reproducibility, behaviour of third-party libraries."
 )
@@ -482,3 +483,5 @@ def check(ctx: Ctx) -> None:
     from . import c04
     with ctx.borrowed({"R4.2": "R3.7"}):
         c04.r4_2(ctx)
+    from .common import falsy_numeric
+    falsy_numeric(ctx, "R3.8", r"seed", "random seeds")
